@@ -197,5 +197,64 @@ pub fn run(o: &Opts) -> Report {
             rep.sample(json!({"payload": it.kind, "w": it.w, "h": it.h, "wrappings": wrappings.iter().map(|w| w.0).collect::<Vec<_>>()}));
         }
     }
+    // multi-frame animations: the same file with the VP8X alpha flag clear (three-channel frames) and
+    // set (four-channel frames) - frames with their own alpha (VP8L with alpha, ALPH+VP8) are still
+    // blended over what is below them, so every RGB frame must equal the RGBA frame without alpha
+    let na = if o.thorough() { 400 } else { 60 };
+    for k in 0..na {
+        let (cw, ch) = (2 * rng.range(2, 9) as u32, 2 * rng.range(2, 9) as u32);
+        let nf = rng.range(2, 4) as usize;
+        let mut frames = Vec::new();
+        for j in 0..nf {
+            // frame rectangle with even offsets inside the canvas
+            let (fw, fh) = if j == 0 { (cw, ch) } else { (rng.range(1, cw as u64) as u32, rng.range(1, ch as u64) as u32) };
+            let (x, y) = (2 * rng.below(u64::from((cw - fw) / 2 + 1)) as u32, 2 * rng.below(u64::from((ch - fh) / 2 + 1)) as u32);
+            let rgba = random_rgba(&mut rng, fw, fh, if j == 0 { 0 } else { 2 });
+            let payload = match (k + j as u64) % 3 {
+                0 => match hk::enc_frame(&rgba, fw, fh, image_webp::ColorType::Rgba8, false) { Ok(s) => Payload::Lossless(s), Err(_) => continue },
+                1 => {
+                    let alpha: Vec<u8> = rgba.chunks_exact(4).map(|p| p[3]).collect();
+                    let Payload::Lossy(b) = make_lossy(&drop_alpha(&rgba), fw, fh, 70.0) else { continue };
+                    Payload::LossyAlpha(crate::c05::make_alph(&alpha, fw as usize, fh as usize, rng.below(4) as u8, rng.chance(1, 2), 0, 0), b)
+                }
+                _ => make_lossy(&drop_alpha(&rgba), fw, fh, 70.0),
+            };
+            frames.push(FrameSpec { x, y, w: fw, h: fh, duration: 10 + j as u32, blend: j == 0 || rng.chance(2, 3), dispose: rng.chance(1, 3), payload });
+        }
+        if frames.len() < 2 { continue; }
+        let bg = [rng.byte(), rng.byte(), rng.byte(), rng.byte()];
+        let files: Vec<Vec<u8>> = [false, true].iter().map(|&a| anim_file(&AnimSpec { cw, ch, alpha_flag: a, bg_file_order: bg, loops: 0, frames: frames.clone() })).collect();
+        let decode_all = |file: &[u8]| -> Result<Vec<Vec<u8>>, String> {
+            match catch(|| {
+                let mut d = WebPDecoder::new(Cursor::new(file.to_vec())).map_err(|e| format!("{e:?}"))?;
+                let mut out = Vec::new();
+                for _ in 0..d.num_frames() {
+                    let mut buf = vec![0x5Au8; d.output_buffer_size().ok_or("size")?];
+                    d.read_frame(&mut buf).map_err(|e| format!("{e:?}"))?;
+                    out.push(buf);
+                }
+                Ok::<_, String>(out)
+            }) { Ok(r) => r, Err(m) => Err(format!("PANIC {m}")) }
+        };
+        let case = format!("anim rgb-vs-rgba {}", hex(&files[0]));
+        rep.case(&case, true);
+        rep.hit("animation_rgb_vs_rgba");
+        match (decode_all(&files[0]), decode_all(&files[1])) {
+            (Ok(rgb), Ok(rgba)) => {
+                for (fi, (a, b)) in rgb.iter().zip(&rgba).enumerate() {
+                    if *a != drop_alpha(b) {
+                        let px = a.chunks_exact(3).zip(drop_alpha(b).chunks_exact(3)).position(|(p, q)| p != q).unwrap_or(0);
+                        rep.disagree(Disagreement { case: case.clone(), got: format!("frame {fi}: {}", fnv_bytes(FNV_INIT, a)), expected: format!("{}", fnv_bytes(FNV_INIT, &drop_alpha(b))), class: "violation", obligation: "C11: the three-channel output equals the four-channel output with alpha dropped (animation frames, VP8X alpha flag clear vs set)".into(), detail: format!("frame {fi} pixel ({}, {}); payload kinds of the frames: {:?}", px as u32 % cw, px as u32 / cw, frames.iter().map(|f| match f.payload { Payload::Lossless(_) => "VP8L", Payload::LossyAlpha(..) => "ALPH+VP8", _ => "VP8" }).collect::<Vec<_>>()) });
+                        break;
+                    }
+                }
+            }
+            (a, b) => {
+                if a.is_ok() != b.is_ok() {
+                    rep.disagree(Disagreement { case: case.clone(), got: format!("{:?}", a.map(|v| v.len())), expected: format!("{:?}", b.map(|v| v.len())), class: "violation", obligation: "C11: an animation decodes alike with the VP8X alpha flag clear and set".into(), detail: String::new() });
+                }
+            }
+        }
+    }
     rep
 }
